@@ -1,6 +1,7 @@
 """C10: per-type output ignores siblings, order and earlier runs (E-FX shared-state frame + E-PY + native replay)."""
 import ast
 import io
+import re
 
 from vk import driver, efx, epy, report
 from contracts import c10_fx as K
@@ -83,6 +84,8 @@ def native_subset_witness():
                 outs.append({p.relative_to(out).as_posix(): hashlib.sha256(p.read_bytes()).hexdigest() for p in out.rglob("*") if p.is_file()})
             for k in (1, 2):
                 for f, h in outs[k].items():
+                    if not re.search(r"_\d+_\d+\.\w+$", f):
+                        continue  # namespace files (e.g. __init__.py) list their members: not a per-type file
                     if f in outs[0] and outs[0][f] != h:
                         return {"input": {"language": lang, "variant": ["whole", "subset without C", "reversed order"][k]}, "why": f"{f} differs from the whole-namespace run"}
         return None
@@ -158,7 +161,7 @@ def main():
     # UniqueNameGenerator.__call__: E-PY contract would need nested maps of ints; covered by the reset obligation + bounded check
     w = native_subset_witness()
     run.add_bounded("whole namespace vs dependency-closed subset vs reversed order: shared files byte-identical (c, py)", "3 types, 3 variants, 2 languages", 6, w is None, str(w or ""))
-    if w and not run.failures:
+    if w:
         run.fail(report.Failure("native#subset/order", "frame", f"{w['input']}: {w['why']}", {"witness": w}, True))
     run.trust("E-FX (vk/efx.py)", "history lemma L2 (paper): per-file state reset or transparent => output independent of earlier files/runs")
     run.assume("Jinja's template cache is keyed by template name with auto_reload off; template rendering has no other hidden state")
